@@ -1131,9 +1131,13 @@ func (d *dealer) syncYield(callee *wamp.Session, msg *wamp.Yield, progress, canR
 			invk.timerCancel()
 		}
 
-		// Clean up the invocation, unless need to retry.
+		// Clean up the invocation, unless need to retry. A final YIELD completes
+		// the call also when the caller has not sent its last CALL of a
+		// progressive call invocation yet: kept any longer, the invocation
+		// would let a second YIELD or ERROR of the callee through to the
+		// caller as a second final reply.
 		defer func() {
-			if keepInvocation || invk.inProgress {
+			if keepInvocation {
 				return
 			}
 			delete(d.invocations, invkReqID)
